@@ -134,8 +134,11 @@ pub fn gen_rows(rng: &mut Rng) -> Vec<Row> {
         &[i64::MAX - 3, i64::MIN + 3, 0],
         &[9007199254740992, 9007199254740993, 100],
     ];
+    // one chunk in eight holds only integers where neighbouring values are the same double (beyond 2^53, next to
+    // the ends of the i64 range): comparisons with float literals and exact comparisons disagree there
+    let big_pools: [&[i64]; 4] = [&[i64::MAX - 3, i64::MAX - 40], &[i64::MIN + 3, i64::MIN + 50], &[9007199254740992, 9007199254740993, 9007199254740997], &[-9007199254740993, -9007199254740995]];
     let npools = if rng.chance(1, 6) { 4 } else { 2 };
-    let pool = pools[rng.usize(npools)];
+    let pool = if rng.chance(1, 8) { big_pools[rng.usize(4)] } else { pools[rng.usize(npools)] };
     (0..n)
         .map(|_| {
             let mut r = Row::new();
